@@ -440,6 +440,48 @@ pub fn check_c15(rep: &mut Report, thorough: bool) {
         }
     }
     rep.add_count("welcome_mutations", wm.len() as u64);
+    // the same mutations offered from non-initial states of the joiner: the valid welcome already parsed (pending), and already
+    // accepted; each under a fresh wrapper id and under the wrapper id the valid welcome came in. The structural refusal does not
+    // depend on what the joiner has seen before (seeded change C15-9: the check is skipped for a known wrapper id).
+    {
+        let pending = joiner0.fork();
+        let parsed = with_mdk!(pending, m => m.process_welcome(&wid("ok"), &rumor));
+        let mut states: Vec<(&str, Client)> = Vec::new();
+        if let Ok(w) = parsed {
+            let accepted = pending.fork();
+            if with_mdk!(accepted, m => m.accept_welcome(&w)).is_ok() {
+                states.push(("accepted", accepted));
+            }
+            states.insert(0, ("pending", pending));
+        }
+        let mut n = 0u64;
+        for (st, cl) in &states {
+            for (label, r) in &wm {
+                for (wl, w) in [("fresh-wrapper", wid(label)), ("known-wrapper", wid("ok"))] {
+                    rep.evaluations += 1;
+                    n += 1;
+                    rep.distinct.insert(h64(&format!("welcome|{label}|{st}|{wl}")));
+                    let j = cl.fork();
+                    let out = std::panic::catch_unwind(std::panic::AssertUnwindSafe(|| with_mdk!(j, m => m.process_welcome(&w, r))));
+                    match out {
+                        Err(_) => rep.finding(format!("C15|welcome-parser-panics|{label}|{st}|{wl}"), format!("process_welcome panics on {label} ({st} joiner, {wl})"), json!({"engine": "shapes", "mutation": label, "state": st, "wrapper": wl})),
+                        // under the wrapper id the valid welcome came in, the library may answer from its record without parsing what it
+                        // was handed (the unchanged tree does so for every content mutation): nothing is accepted then, provided the
+                        // answer is that record and not something read from the mutated rumor
+                        Ok(Ok(got)) if wl == "known-wrapper" => {
+                            let same = got.mls_group_id == res.group.mls_group_id && got.nostr_group_id == res.group.nostr_group_id && got.group_name == res.group.name && got.welcomer == admin.pk() && got.id == rumor.id.unwrap_or(got.id) && got.wrapper_event_id == w;
+                            if !same {
+                                rep.finding(format!("C15|welcome-parser-accepts|{label}|{st}|{wl}|answer-differs-from-the-record"), format!("process_welcome, handed a rumor with {label} under the wrapper id of the {st} valid welcome, answers with a welcome that is not the recorded one"), json!({"engine": "shapes", "mutation": label, "state": st, "wrapper": wl}));
+                            }
+                        }
+                        Ok(Ok(_)) => rep.finding(format!("C15|welcome-parser-accepts|{label}|{st}|{wl}"), format!("process_welcome accepts a welcome rumor with {label} from a joiner whose valid welcome is {st}, under a {wl} id"), json!({"engine": "shapes", "mutation": label, "state": st, "wrapper": wl})),
+                        Ok(Err(_)) => {}
+                    }
+                }
+            }
+        }
+        rep.add_count("welcome_mutations_from_later_states", n);
+    }
 
     // ---- (d) media tags ------------------------------------------------------------------------------------------------
     let gid = res.group.mls_group_id.clone();
